@@ -660,7 +660,7 @@ fn emit_update(out: &mut Out, runner: &mut Runner, c: &UpdCase, compression: Til
 const NAMES: &[&str] = &["roads", "water", "pois", "Straße", "l"];
 const KEYS: &[&str] = &["id", "name", "kind", "pop", "höhe", "x"];
 const ID_TEXTS: &[&str] = &["a1", "b2", "1", "12", "-3", "true", "1.5", "zz", "0.5", "1.50", "18446744073709551615", "v1"];
-const DATA_TEXTS: &[&str] = &["", "x", "Berlin", "12", "-7", "3.25", "true", "false", "a,b", "q\"q", "日本", "007", "-0", ".5", "1e5", "v2", " 1"];
+const DATA_TEXTS: &[&str] = &["", "x", "Berlin", "12", "-7", "3.25", "true", "false", "a,b", "q\"q", "日本", "007", "-0", ".5", "1e5", "v2", " 1", "99999999999999999999", "-9223372036854775808", "-9223372036854775809", "18446744073709551616"];
 
 fn gen_opts(messy: bool, nan: bool) -> GenOpts {
 	GenOpts {
